@@ -50,7 +50,7 @@ def ev(t):
             if b.denominator != 1:
                 raise DontCare()
             n = b.numerator
-            if abs(n) > MAX_EXP:
+            if abs(n) > MAX_EXP and a != 0:
                 raise TooBig()
             if a == 0:
                 if n == 0:
